@@ -260,13 +260,15 @@ def argmaxFirst : List (Nat × Rat) → Option (Nat × Rat)
     | none => some x
     | some y => if x.2 < y.2 then some y else some x
 
-/-- `_pick_best_crs(poly, candidates)`; `cands` carry their overlap fraction with the polygon,
-`bigArea` = `poly.area > 1e-9` -/
-def pickBest (cands : List (Nat × Rat)) (bigArea : Bool) : Res Nat :=
+/-- `_pick_best_crs(poly, candidates)` (as repaired on branch fix-C11): with more than one candidate they are
+ranked (stable, descending) by their key — the overlap fraction with the polygon, or for point-like
+polygons (`poly.area ≤ 1e-9`, flag `bigArea = false`) 1 / 0 for "valid region contains the location" —
+and the first is returned.  `cands` carry that key. -/
+def pickBest (cands : List (Nat × Rat)) (_bigArea : Bool) : Res Nat :=
   match cands with
   | [] => .error .valueError
   | first :: rest =>
-    if rest ≠ [] ∧ bigArea then
+    if rest ≠ [] then
       match argmaxFirst cands with
       | some c => .ok c.1
       | none => .ok first.1
